@@ -274,3 +274,112 @@ Print Assumptions C12_pmis_model_passes_partition_oracle.
 Print Assumptions C12_pmis_model_passes_partition_oracle_Qc.
 Print Assumptions C12_pmis_lonely_iff_isolated.
 Print Assumptions C12_pmis_depends_on_partition.
+
+
+(* ====================================================================================================
+   C12-C: the transfer operators of the DISTRIBUTED smoothed aggregation (amgcl/mpi/coarsening/smoothed_aggregation.hpp).
+
+   Model (DistSa.v): every rank computes the strength flags of its strip with its own diagonal and the ghost diagonals it
+   receives through the exchange of the communication pattern (pmis::conn_strength), lumps the weak entries of the LOCAL and
+   of the REMOTE part of a row into the filtered diagonal, scales the strong entries from the LEFT by -omega * inverse(dia_f)
+   (no zero guard in the distributed code), puts (1 - omega) on the diagonal; P = mpi::product(Af, P_tent) (Dist.dist_product,
+   the object of C11), R = mpi::transpose(P); P_tent rank by rank from the PMIS model (own aggregate: local column, aggregate
+   of another rank: remote column id + exclusive_sum(naggr)[owner]); eps_strong halved per call (dsa_eps), omega =
+   relax * 2/3 resp. relax * (4/3) / rho (dsa_omega, dsa_omega_rho).  Tied exactly to the implementation by bin/check C12
+   (ops sa / bsa vs m.dsa, scalar and 2x2 block values).
+   Proofs: DistSaProofs.v, DistSaPtent.v (+ C11 exchange_spec / dist_product_dense, C04 sa_formula_holds). *)
+From Amgcl Require Import Aggregates Coarsen DistSa DistSaPtent DistSaProofs.
+
+(* the distributed filtered matrix is, rank by rank, the constructor's split of the filtered matrix I - omega Df^-1 A_f of the
+   ASSEMBLED matrix (strength test with the global diagonal) -- for every rank count and every contiguous partition, empty
+   ranks included.  Ring laws only (the sum "local weak entries, then remote weak entries" is the sum over the row). *)
+Theorem C12_dist_sa_filtered_every_partition (S : Scalar) (Srt : Sring S) (A : crs S) (parts : list nat) :
+  psum parts = nrows A -> ncols A = nrows A -> wf A = true ->
+  forall junk eps2 omega : S,
+  dist_sa_filtered junk eps2 omega (Dist.split A parts parts)
+  = Dist.split (sa_glob_filtered omega A (strong_entry junk A eps2)) parts parts.
+Proof. exact (dist_sa_filtered_split Srt A parts). Qed.
+
+(* the rank-by-rank P_tent of the model is the split of the global P_tent of the PMIS model *)
+Theorem C12_dist_ptent_is_split (S : Scalar) (parts : list nat) (w : Pmis.world) :
+  length (w_na w) = length parts ->
+  (forall c, c < psum parts ->
+     getn (w_st w) c = mkNode Deleted None \/
+     exists o id, getn (w_st w) c = mkNode (Agg id) (Some o) /\ o < length parts /\ id < nth o (w_na w) 0) ->
+  dist_ptent (S:=S) parts w
+  = Dist.split (ptent_of S (map (column w) (seq 0 (psum parts))) (psum (w_na w))) parts (w_na w).
+Proof. exact (dist_ptent_is_split S parts w). Qed.
+
+Section FieldSa.
+Variable S : Scalar.
+Hypothesis Sft : Sfield S.
+Hypothesis Seqb : seqb_spec S.
+
+(* assembling the per-rank P of the model = the SERIAL smoothed-aggregation formula (C04_sa_formula:
+   P = (I - omega Df^-1 A_f) P_tent, densely) of the assembled matrix with the assembled P_tent, on every regular row (non-zero
+   filtered diagonal, one stored diagonal entry), for every partition of the rows and every column partition of P_tent *)
+Theorem C12_dist_sa_smooth_every_partition (junk eps2 omega : S) (A Pt : crs S) (parts cparts : list nat) :
+  psum parts = nrows A -> ncols A = nrows A -> wf A = true ->
+  length parts = length cparts -> psum parts = nrows Pt ->
+  forall i j, i < nrows A -> sa_row_regular A (conn_flags S junk A eps2) i = true ->
+    mget (assemble (dist_sa_smooth junk eps2 omega (Dist.split A parts parts) (Dist.split Pt parts cparts))) i j
+    = sa_formula omega A (conn_flags S junk A eps2) Pt i j.
+Proof. exact (dist_sa_smooth_every_partition S Sft Seqb junk eps2 omega A Pt parts cparts). Qed.
+
+(* one call of transfer_operators with the PMIS model for P_tent: defined for every rank count and partition (the aggregation
+   terminates), P_tent is the split of the global P_tent, R = transpose(P) by construction, and the assembled P is the serial
+   formula.  Hypothesis as in C12_pmis_partition: every strength row contains the diagonal. *)
+Theorem C12_dist_sa_transfer_every_partition (junk eps2 omega : S) (A : crs S) (parts : list nat) :
+  psum parts = nrows A -> ncols A = nrows A -> wf A = true ->
+  (forall i, i < psum parts -> In i (grow (conn junk A eps2) i)) ->
+  exists w Pt P R,
+    pmis parts (conn junk A eps2) = Some w /\
+    dist_sa_transfer junk eps2 omega A parts = Some (Pt, P, R) /\
+    let PtG := ptent_of S (map (column w) (seq 0 (psum parts))) (psum (w_na w)) in
+    Pt = Dist.split PtG parts (w_na w) /\
+    R = dist_transpose P parts /\
+    forall i j, i < nrows A -> sa_row_regular A (conn_flags S junk A eps2) i = true ->
+      mget (assemble P) i j = sa_formula omega A (conn_flags S junk A eps2) PtG i j.
+Proof. exact (dist_sa_transfer_every_partition S Sft Seqb junk eps2 omega A parts). Qed.
+End FieldSa.
+
+Theorem C12_dist_sa_filtered_every_partition_Qc (A : crs QcS) (parts : list nat) :
+  psum parts = nrows A -> ncols A = nrows A -> wf A = true ->
+  forall junk eps2 omega : QcS,
+  dist_sa_filtered junk eps2 omega (Dist.split A parts parts)
+  = Dist.split (sa_glob_filtered omega A (strong_entry junk A eps2)) parts parts.
+Proof. exact (C12_dist_sa_filtered_every_partition QcS QcS_ring A parts). Qed.
+
+Theorem C12_dist_sa_transfer_every_partition_Qc (junk eps2 omega : QcS) (A : crs QcS) (parts : list nat) :
+  psum parts = nrows A -> ncols A = nrows A -> wf A = true ->
+  (forall i, i < psum parts -> In i (grow (conn junk A eps2) i)) ->
+  exists w Pt P R,
+    pmis parts (conn junk A eps2) = Some w /\
+    dist_sa_transfer junk eps2 omega A parts = Some (Pt, P, R) /\
+    let PtG := ptent_of QcS (map (column w) (seq 0 (psum parts))) (psum (w_na w)) in
+    Pt = Dist.split PtG parts (w_na w) /\
+    R = dist_transpose P parts /\
+    forall i j, i < nrows A -> sa_row_regular A (conn_flags QcS junk A eps2) i = true ->
+      mget (assemble P) i j = sa_formula omega A (conn_flags QcS junk A eps2) PtG i j.
+Proof. exact (C12_dist_sa_transfer_every_partition QcS QcS_field QcS_eqb junk eps2 omega A parts). Qed.
+Print Assumptions C12_dist_sa_filtered_every_partition.
+Print Assumptions C12_dist_ptent_is_split.
+Print Assumptions C12_dist_sa_smooth_every_partition.
+Print Assumptions C12_dist_sa_transfer_every_partition.
+Print Assumptions C12_dist_sa_filtered_every_partition_Qc.
+Print Assumptions C12_dist_sa_transfer_every_partition_Qc.
+
+(* non-vacuity: path 0-1-2-3 (diagonal 4, off-diagonals -2), eps_strong = 1/4, omega = 1/2, ranks [2;0;2] (an empty rank):
+   the hypotheses hold, every row is regular, the call is defined and the assembled P is (3/4, 1, 1, 3/4)^T *)
+Definition sa_ex_A : crs QcS := mkCrs 4 [[(0, qc 4 1); (1, qc (-2) 1)]; [(0, qc (-2) 1); (1, qc 4 1); (2, qc (-2) 1)];
+                                         [(1, qc (-2) 1); (2, qc 4 1); (3, qc (-2) 1)]; [(2, qc (-2) 1); (3, qc 4 1)]].
+Example C12_dist_sa_nonvacuous :
+  let parts := [2; 0; 2] in let eps2 := qc 1 16 in let omega := qc 1 2 in let junk := qc 0 1 in
+  psum parts = nrows sa_ex_A /\ ncols sa_ex_A = nrows sa_ex_A /\ wf sa_ex_A = true /\
+  forallb (fun i => memb i (grow (conn junk sa_ex_A eps2) i)) (seq 0 4) = true /\
+  forallb (fun i => sa_row_regular sa_ex_A (conn_flags QcS junk sa_ex_A eps2) i) (seq 0 4) = true /\
+  match dist_sa_transfer junk eps2 omega sa_ex_A parts with
+  | Some (_, P, _) => map (fun i => qval (mget (assemble P) i 0)) (seq 0 4) = [(3 # 4)%Q; (1 # 1)%Q; (1 # 1)%Q; (3 # 4)%Q]
+  | None => False
+  end.
+Proof. vm_compute. repeat split; reflexivity. Qed.
